@@ -145,6 +145,10 @@ package standard
 //@ spec attPending(acc any, d *rules.SignBeaconAttestationData) bool = acc != nil && pkOfAcc(acc) in tokroot && tokroot[pkOfAcc(acc)] == attRootOf(d)
 //@ func (*Service).SignBeaconAttestations$2
 //@ worker i offset entries
+//@ focus bbr : range
+//@ focus src : range
+//@ focus tgt : range
+//@ focus exact : range exact sigalloc frame
 //@ requires s != nil
 //@ requires [extent] 0 <= offset && entries >= 1 && offset + entries <= len(rulesResults)
 //@ requires [lens] len(rulesResults) <= len(results) && len(signatures) == len(results) && len(data) == len(results)
@@ -224,6 +228,7 @@ package standard
 
 //@ func (*Service).Multisign$2
 //@ worker i offset entries
+//@ focus exact : range exact sigalloc frame
 //@ requires s != nil
 //@ requires [extent] 0 <= offset && entries >= 1 && offset + entries <= len(rulesResults)
 //@ requires [lens] len(rulesResults) <= len(results) && len(signatures) == len(results) && len(data) == len(results)
